@@ -91,6 +91,8 @@ pub struct CellInfo {
     pub epoch: Ep,
     pub ts: u64,
     pub cellbase: bool,
+    /// hash of the committing block (None: the block under construction)
+    pub hash: Option<[u8; 32]>,
 }
 
 #[derive(Clone, Debug)]
@@ -140,6 +142,7 @@ impl<'a> View<'a> {
                     epoch: Ep::from_full(c.block_epoch),
                     ts: self.tree.get(&c.block_hash).block.timestamp(),
                     cellbase: c.cellbase,
+                    hash: Some(h32(&c.block_hash)),
                 }),
             }),
             None => Look::Unknown,
@@ -171,12 +174,18 @@ pub struct PosEnv {
     pub median: u64,
 }
 
+#[derive(Clone)]
 pub struct Params {
     pub maturity: Ep,
     pub as_hash: Byte32,
     pub af_hash: Byte32,
     /// pool side: relative since on a cell without commit position cannot be decided
     pub pool: bool,
+    /// `Consensus::dao_type_hash`: a cell whose type script has hash_type `type` and this code hash
+    /// is a NervosDAO cell for the verifiers (whatever its args)
+    pub dao_type_hash: Byte32,
+    /// `starting_block_limiting_dao_withdrawing_lock`
+    pub dao_lock_start: u64,
 }
 
 #[derive(Clone, Debug, Default)]
@@ -188,6 +197,9 @@ pub struct Eval {
     pub fee: i128,
     /// boundary features met by this (tx, position)
     pub feats: Vec<String>,
+    /// NervosDAO interest paid out by this transaction (sum over the withdrawing inputs whose
+    /// maximum withdraw is defined): what the block's DAO field `S` loses
+    pub interest: u128,
 }
 
 impl Eval {
@@ -460,21 +472,174 @@ pub fn eval(view: &View, tx: &TransactionView, env: &PosEnv, p: &Params) -> Eval
             fail(&mut ev, if view.tree.blocks.contains_key(&h) { "header-dep:side-chain" } else { "header-dep:unknown" });
         }
     }
+    // --- NervosDAO, as far as the verifiers (not the DAO script) enforce RFC 0023:
+    // a withdrawing input (DAO-typed, 8 bytes of data holding a non-zero number) is worth its
+    // maximum withdraw = counted * AR(withdrawing block) / AR(deposit block) + occupied, where the
+    // withdrawing block is the block that committed the cell (its hash must be a header dep) and the
+    // deposit block is the header dep whose index the input's witness names (WitnessArgs.input_type,
+    // 8 bytes LE) and must be lower than the withdrawing block; every other input is worth its capacity
+    let is_dao = |o: &CellOutput| -> bool {
+        o.type_()
+            .to_opt()
+            .map(|t| {
+                let ht: u8 = t.hash_type().into();
+                ht == 1 && t.code_hash() == p.dao_type_hash
+            })
+            .unwrap_or(false)
+    };
+    let header_deps: Vec<[u8; 32]> = tx.header_deps_iter().map(|h| h32(&h)).collect();
+    let mut max_sum: u128 = 0;
+    let mut any_dao_input = false;
+    let mut any_withdrawing = false;
+    let mut withdraw_defined = true;
+    for (idx, c) in resolved_inputs.iter().enumerate() {
+        let c = match c {
+            Some(c) => c,
+            None => continue,
+        };
+        let capv = cap(&c.output) as u128;
+        let dao = is_dao(&c.output);
+        if dao {
+            any_dao_input = true;
+        }
+        let withdrawing = dao && c.data.len() == 8 && u64::from_le_bytes(c.data[..8].try_into().unwrap()) > 0;
+        if !withdrawing {
+            if dao {
+                feat(&mut ev, "dao-input-not-withdrawing");
+            }
+            max_sum += capv;
+            continue;
+        }
+        any_withdrawing = true;
+        feat(&mut ev, "dao-withdrawing-input");
+        let w_hash = match c.info.as_ref().and_then(|i| i.hash) {
+            Some(h) if header_deps.contains(&h) => h,
+            Some(_) => {
+                fail(&mut ev, "dao:withdrawing-block-not-in-header-deps");
+                withdraw_defined = false;
+                continue;
+            }
+            None => {
+                fail(&mut ev, "dao:withdrawing-cell-has-no-committed-block");
+                withdraw_defined = false;
+                continue;
+            }
+        };
+        let index = match tx.witnesses().get(idx) {
+            None => {
+                fail(&mut ev, "dao:witness-missing");
+                withdraw_defined = false;
+                continue;
+            }
+            Some(w) => match ckb_types::packed::WitnessArgs::from_slice(&w.raw_data()) {
+                Err(_) => {
+                    fail(&mut ev, "dao:witness-malformed");
+                    withdraw_defined = false;
+                    continue;
+                }
+                Ok(wa) => match wa.input_type().to_opt().map(|b| b.raw_data()) {
+                    Some(b) if b.len() == 8 => u64::from_le_bytes(b[..8].try_into().unwrap()),
+                    _ => {
+                        fail(&mut ev, "dao:witness-without-8-byte-header-index");
+                        withdraw_defined = false;
+                        continue;
+                    }
+                },
+            },
+        };
+        let d_hash = match header_deps.get(index as usize) {
+            Some(h) if (index as usize as u64) == index => *h,
+            _ => {
+                fail(&mut ev, "dao:deposit-header-index-out-of-range");
+                withdraw_defined = false;
+                continue;
+            }
+        };
+        let key = |h: &[u8; 32]| Byte32::from_slice(h).unwrap();
+        let (wb, db) = match (view.tree.blocks.get(&key(&w_hash)), view.tree.blocks.get(&key(&d_hash))) {
+            (Some(w), Some(d)) => (w, d),
+            _ => {
+                // an unknown header dep: the header-dep rule has failed already
+                withdraw_defined = false;
+                continue;
+            }
+        };
+        if db.number >= wb.number {
+            fail(&mut ev, "dao:deposit-block-not-before-withdrawing-block");
+            withdraw_defined = false;
+            continue;
+        }
+        let recorded = u64::from_le_bytes(c.data[..8].try_into().unwrap());
+        if recorded != db.number {
+            // the DAO script would refuse this; the verifiers take the witness's word
+            feat(&mut ev, "dao-named-deposit-header-differs-from-recorded-number");
+        }
+        let occupied = occupied_shannons(&c.output, c.data.len());
+        if capv < occupied {
+            fail(&mut ev, "dao:withdrawing-cell-below-occupied");
+            withdraw_defined = false;
+            continue;
+        }
+        let counted = capv - occupied;
+        let maxw = counted * wb.dao.ar as u128 / db.dao.ar as u128 + occupied;
+        if maxw > capv {
+            feat(&mut ev, "dao-interest-nonzero");
+        }
+        ev.interest += maxw.saturating_sub(capv);
+        max_sum += maxw;
+    }
     // --- capacity
     let all_inputs_resolved = resolved_inputs.iter().all(|c| c.is_some()) && !resolved_inputs.is_empty();
     let in_sum: u128 = resolved_inputs.iter().flatten().map(|c| cap(&c.output) as u128).sum();
     let out_sum: u128 = tx.outputs().into_iter().map(|o| cap(&o) as u128).sum();
-    ev.fee = in_sum as i128 - out_sum as i128;
-    if all_inputs_resolved {
-        if in_sum < out_sum {
-            fail(&mut ev, "capacity:outputs-exceed-inputs");
-            if out_sum - in_sum == 1 {
-                feat(&mut ev, "capacity-sum-one-over");
+    ev.fee = max_sum as i128 - out_sum as i128;
+    if all_inputs_resolved && withdraw_defined {
+        if max_sum < out_sum {
+            fail(&mut ev, if any_withdrawing { "dao:outputs-exceed-maximum-withdraw" } else { "capacity:outputs-exceed-inputs" });
+            if out_sum - max_sum == 1 {
+                feat(&mut ev, if any_withdrawing { "dao-withdraw-one-over-maximum" } else { "capacity-sum-one-over" });
             }
-        } else if in_sum == out_sum {
-            feat(&mut ev, "capacity-sum-exact");
+        } else if max_sum == out_sum {
+            feat(&mut ev, if any_withdrawing { "dao-withdraw-exactly-maximum" } else { "capacity-sum-exact" });
+        } else if any_withdrawing && max_sum - out_sum == 1 {
+            feat(&mut ev, "dao-withdraw-one-below-maximum");
+        }
+        if any_dao_input && out_sum > in_sum && out_sum <= max_sum {
+            // the case the capacity exemption exists for
+            feat(&mut ev, "dao-outputs-above-input-capacities-within-maximum");
         }
     }
+    // --- NervosDAO lock-size rule (`DaoScriptSizeVerifier`): input i and output i both DAO-typed,
+    // input data all zero (a deposit cell), cell committed at or after the configured block number:
+    // the two lock scripts have the same size
+    for (c, o) in resolved_inputs.iter().zip(tx.outputs().into_iter()) {
+        let c = match c {
+            Some(c) => c,
+            None => continue,
+        };
+        if !(is_dao(&c.output) && is_dao(&o)) || c.data.iter().any(|b| *b != 0) {
+            continue;
+        }
+        let before = c.info.as_ref().map(|i| i.number < p.dao_lock_start).unwrap_or(false);
+        let same = c.output.lock().args().raw_data().len() == o.lock().args().raw_data().len();
+        match (before, same) {
+            (true, true) => feat(&mut ev, "dao-lock-size-equal-before-activation"),
+            (true, false) => feat(&mut ev, "dao-lock-size-differs-before-activation"),
+            (false, true) => feat(&mut ev, "dao-lock-size-equal-after-activation"),
+            (false, false) => {
+                feat(&mut ev, "dao-lock-size-differs-after-activation");
+                fail(&mut ev, "dao:lock-size-mismatch");
+            }
+        }
+        if let Some(i) = c.info.as_ref() {
+            if i.number == p.dao_lock_start {
+                feat(&mut ev, "dao-lock-rule-deposit-exactly-at-activation");
+            } else if i.number + 1 == p.dao_lock_start {
+                feat(&mut ev, "dao-lock-rule-deposit-one-block-before-activation");
+            }
+        }
+    }
+    let dao_next_to_boundary = any_dao_input;
     for (o, d) in tx.outputs_with_data_iter() {
         let occ = occupied_shannons(&o, d.len());
         let c = cap(&o) as u128;
@@ -482,9 +647,15 @@ pub fn eval(view: &View, tx: &TransactionView, env: &PosEnv, p: &Params) -> Eval
             fail(&mut ev, "capacity:output-below-occupied");
             if occ - c == 1 {
                 feat(&mut ev, "capacity-occupied-one-short");
+                if dao_next_to_boundary {
+                    feat(&mut ev, "dao-input-next-to-output-one-below-occupied");
+                }
             }
         } else if c == occ {
             feat(&mut ev, "capacity-occupied-exact");
+            if dao_next_to_boundary {
+                feat(&mut ev, "dao-input-next-to-output-exactly-occupied");
+            }
         }
     }
     // --- maturity (inputs and expanded cell deps)
@@ -564,7 +735,24 @@ pub fn eval(view: &View, tx: &TransactionView, env: &PosEnv, p: &Params) -> Eval
     for (s, what) in scripts {
         let ht: u8 = s.hash_type().into();
         if ht == 1 {
-            ev.undetermined.push("script-by-type-hash-not-modelled".into());
+            // code located by the type-script hash of a dep cell
+            let want = s.code_hash();
+            let mut datas: Vec<[u8; 32]> = resolved_deps
+                .iter()
+                .filter(|(_, c)| c.output.type_().to_opt().map(|t| t.calc_script_hash() == want).unwrap_or(false))
+                .map(|(k, _)| dep_hashes[k])
+                .collect();
+            datas.sort();
+            datas.dedup();
+            if datas.is_empty() {
+                fail(&mut ev, &format!("script:{what}-code-not-in-deps"));
+            } else if datas.len() > 1 {
+                fail(&mut ev, &format!("script:{what}-ambiguous-code"));
+            } else if datas[0] == h32(&p.af_hash) {
+                fail(&mut ev, &format!("script:{what}-always-failure"));
+            } else if datas[0] != h32(&p.as_hash) {
+                ev.undetermined.push("script-outside-prepared-set".into());
+            }
             continue;
         }
         let code = h32(&s.code_hash());
@@ -650,6 +838,39 @@ pub struct CandSpec {
     pub structural: u8,
     /// 0 never, 1 submit_local_tx at creation, 2 submit_local_tx once proposed
     pub pool_submit: u8,
+    /// NervosDAO shape (family `dao`); None = ordinary candidate
+    #[serde(default)]
+    pub dao: Option<DaoCand>,
+}
+
+#[derive(Clone, Debug, Serialize, Deserialize)]
+pub struct DaoCand {
+    /// 1 deposit (plain input -> DAO-typed output holding 8 zero bytes), 2 withdraw phase 1 (deposit
+    /// cell -> withdrawing cell holding the deposit block number), 3 withdraw phase 2 (withdrawing
+    /// cell -> plain outputs, header deps + witness index)
+    pub kind: u8,
+    pub sel: u16,
+    /// phase 1 / deposit: lock args length of the DAO-typed output relative to the input's:
+    /// 0 same, 1..=3 that many bytes more (mod 4 of the total)
+    pub out_lock: u8,
+    /// outputs total: 0 maximum - ordinary fee, 1 exactly the maximum, 2 maximum + 1, 3 maximum - 1,
+    /// 4 exactly the input capacities, 5 input capacities + 1, 6 tiny fee
+    pub amount: u8,
+    /// phase 2 header deps / witness: 0 [D, W] index 0, 1 [W, D] index 1, 2 W left out, 3 index past
+    /// the header deps, 4 no witness, 5 witness is not a WitnessArgs, 6 input_type of 4 bytes, 7 names W
+    /// itself, 8 names another main-chain block below W, 9 names a block above W, 10 lock (not
+    /// input_type) carries the index
+    pub hdr: u8,
+    /// an ordinary input next to the DAO one
+    pub extra_plain_input: bool,
+    /// the ordinary input comes first (DAO input and DAO output are then not at the same index)
+    pub plain_first: bool,
+    /// extra output at its occupied capacity: 0 none, 1 exactly, 2 one below, 3 one above
+    pub occ: u8,
+    /// non-empty args on the DAO type script of the output (still DAO-typed for the verifiers)
+    pub type_args: bool,
+    /// leave out the DAO code cell dep
+    pub no_dao_dep: bool,
 }
 
 pub fn since_strategy() -> impl Strategy<Value = SinceSpec> {
@@ -731,6 +952,45 @@ pub fn hdr_strategy() -> impl Strategy<Value = HdrSpec> {
 
 pub const DEP_KINDS: u8 = 21;
 
+pub fn dao_cand_strategy() -> impl Strategy<Value = DaoCand> {
+    (
+        (
+            prop_oneof![2 => Just(1u8), 5 => Just(2u8), 7 => Just(3u8)],
+            any::<u16>(),
+            prop_oneof![3 => Just(0u8), 2 => 1u8..=3],
+            prop_oneof![4 => Just(0u8), 3 => Just(1u8), 3 => Just(2u8), 2 => Just(3u8), 1 => Just(4u8), 2 => Just(5u8), 1 => Just(6u8)],
+            prop_oneof![12 => Just(0u8), 6 => Just(1u8), 1 => Just(2u8), 1 => Just(3u8), 1 => Just(4u8), 1 => Just(5u8), 1 => Just(6u8), 1 => Just(7u8), 2 => Just(8u8), 1 => Just(9u8), 1 => Just(10u8)],
+        ),
+        (
+            prop_oneof![3 => Just(false), 1 => Just(true)],
+            prop_oneof![2 => Just(false), 1 => Just(true)],
+            prop_oneof![6 => Just(0u8), 2 => Just(1u8), 2 => Just(2u8), 1 => Just(3u8)],
+            prop_oneof![7 => Just(false), 1 => Just(true)],
+            prop_oneof![19 => Just(false), 1 => Just(true)],
+        ),
+    )
+        .prop_map(|((kind, sel, out_lock, amount, hdr), (extra_plain_input, plain_first, occ, type_args, no_dao_dep))| DaoCand {
+            kind,
+            sel,
+            out_lock,
+            amount,
+            hdr,
+            extra_plain_input,
+            plain_first,
+            occ,
+            type_args,
+            no_dao_dep,
+        })
+}
+
+/// candidates of the `dao` family: about two thirds carry a NervosDAO shape
+pub fn dao_family_cand_strategy() -> impl Strategy<Value = CandSpec> {
+    (cand_strategy(), prop_oneof![1 => Just(None), 2 => dao_cand_strategy().prop_map(Some)]).prop_map(|(mut c, d)| {
+        c.dao = d;
+        c
+    })
+}
+
 pub fn cand_strategy() -> impl Strategy<Value = CandSpec> {
     (
         (0u8..3, any::<u16>(), prop_oneof![3 => Just(0u8), 2 => Just(1u8), 1 => Just(2u8)], prop_oneof![4 => Just(0u8), 1 => Just(1u8), 1 => Just(2u8)]),
@@ -771,6 +1031,7 @@ pub fn cand_strategy() -> impl Strategy<Value = CandSpec> {
             out,
             structural,
             pool_submit,
+            dao: None,
         })
 }
 
@@ -798,6 +1059,10 @@ pub struct Prep {
     pub groups: BTreeMap<&'static str, CellKey>,
     /// the input spent by the preparation transaction (dead afterwards)
     pub dead: Vec<CellKey>,
+    /// family `dao`: NervosDAO deposit cells (8 zero bytes) and withdrawing cells (8 bytes naming a
+    /// main-chain block of the history) created by the third preparation transaction
+    pub dao_deposits: Vec<CellKey>,
+    pub dao_withdrawing: Vec<CellKey>,
 }
 
 fn group_data(members: &[CellKey]) -> Bytes {
@@ -825,13 +1090,20 @@ pub const N_PLAIN: usize = 44;
 pub const PLAIN_CAP: u64 = 1_000 * 100_000_000;
 
 /// Build the preparation transactions on the state of `tip`.
-pub fn build_prep(env: &Env, tree: &Tree, tip: &H, big_groups: bool) -> Prep {
+pub fn build_prep(env: &Env, tree: &Tree, tip: &H, big_groups: bool, dao: bool) -> Prep {
     let st = &tree.get(tip).state;
     let funding = funding_cells(env, st);
     let mut prep = Prep::default();
     if funding.is_empty() {
         return prep;
     }
+    let dao_tx = if dao { build_dao_prep(env, tree, tip, &funding, &mut prep) } else { None };
+    let prep_ret = |mut prep: Prep, dao_tx: &Option<TransactionView>| {
+        if let Some(t) = dao_tx {
+            prep.txs.push(t.clone());
+        }
+        prep
+    };
     let as_key = cell_key(&env.always_success_dep.out_point());
     let af_key = cell_key(&env.always_failure_dep.out_point());
     let (src, src_cap) = funding[0];
@@ -901,7 +1173,7 @@ pub fn build_prep(env: &Env, tree: &Tree, tip: &H, big_groups: bool) -> Prep {
     }
     if change < need + 200 * 100_000_000 {
         prep.txs.push(tx1);
-        return prep;
+        return prep_ret(prep, &dao_tx);
     }
     let mut rest = change - need - 1_000_000;
     let mut tb = TransactionBuilder::default()
@@ -942,7 +1214,60 @@ pub fn build_prep(env: &Env, tree: &Tree, tip: &H, big_groups: bool) -> Prep {
     }
     prep.txs.push(tx1);
     prep.txs.push(tx2);
-    prep
+    prep_ret(prep, &dao_tx)
+}
+
+pub const N_DAO_DEPOSITS: usize = 10;
+pub const N_DAO_WITHDRAWING: usize = 14;
+
+pub fn dao_type_script(env: &Env, args_len: usize) -> Script {
+    env.dao_type.clone().as_builder().args(Bytes::from(vec![0xda; args_len]).pack()).build()
+}
+
+/// third preparation transaction (family `dao`): deposit cells and withdrawing cells with lock args
+/// of 0 / 1 / 2 bytes, funded by the third largest funding cell
+fn build_dao_prep(env: &Env, tree: &Tree, tip: &H, funding: &[(CellKey, u64)], prep: &mut Prep) -> Option<TransactionView> {
+    let (src, src_cap) = *funding.get(2)?;
+    let dep_cap = 2_000 * 100_000_000u64;
+    let wd_cap = 3_000 * 100_000_000u64;
+    let need = N_DAO_DEPOSITS as u64 * dep_cap + N_DAO_WITHDRAWING as u64 * (wd_cap + 14 * 7) + 200 * 100_000_000;
+    if src_cap < need {
+        return None;
+    }
+    let tipn = tree.get(tip).number;
+    if tipn < 2 {
+        return None;
+    }
+    let mut tb = TransactionBuilder::default()
+        .cell_dep(env.always_success_dep.clone())
+        .cell_dep(env.dao_dep.clone())
+        .input(CellInput::new(out_point_of(&src), 0));
+    let mut used = 0u64;
+    let mk = |capv: u64, lock: Script| {
+        CellOutput::new_builder().capacity(Capacity::shannons(capv)).lock(lock).type_(Some(env.dao_type.clone()).pack()).build()
+    };
+    for i in 0..N_DAO_DEPOSITS {
+        tb = tb.output(mk(dep_cap, lock_variant(env, (i % 3) as u8))).output_data(Bytes::from(vec![0u8; 8]).pack());
+        used += dep_cap;
+    }
+    for i in 0..N_DAO_WITHDRAWING {
+        // the recorded deposit block: spread over the main chain of the history
+        let d = 1 + (i as u64 * 5 + 1) % tipn;
+        let c = wd_cap + i as u64 * 7;
+        tb = tb.output(mk(c, lock_variant(env, (i % 3) as u8))).output_data(Bytes::from(d.to_le_bytes().to_vec()).pack());
+        used += c;
+    }
+    let change = CellOutput::new_builder().capacity(Capacity::shannons(src_cap - used - 1_000_000)).lock(env.always_success_lock.clone()).build();
+    let tx = tb.output(change).output_data(Bytes::new().pack()).build();
+    let h = h32(&tx.hash());
+    for i in 0..N_DAO_DEPOSITS {
+        prep.dao_deposits.push((h, i as u32));
+    }
+    for i in 0..N_DAO_WITHDRAWING {
+        prep.dao_withdrawing.push((h, (N_DAO_DEPOSITS + i) as u32));
+    }
+    prep.dead.push(src);
+    Some(tx)
 }
 
 // ---------------------------------------------------------------------------------------------
@@ -963,6 +1288,9 @@ pub struct GenCtx<'a> {
     pub side_blocks: &'a [H],
     /// next unreserved plain cell
     pub next_plain: usize,
+    /// next unreserved prepared DAO deposit / withdrawing cell
+    pub next_dao: (usize, usize),
+    pub dao_lock_start: u64,
 }
 
 #[derive(Clone, Debug)]
@@ -998,7 +1326,7 @@ fn target_env(g: &GenCtx, target: u8, probe: usize) -> PosEnv {
 /// since value aimed at the threshold of `env` for a cell committed at `info`
 pub fn make_since(sp: &SinceSpec, env: &PosEnv, info: Option<&CellInfo>) -> u64 {
     const REL: u64 = 1 << 63;
-    let base = info.copied().unwrap_or(CellInfo { number: env.number, epoch: env.epoch, ts: env.median, cellbase: false });
+    let base = info.copied().unwrap_or(CellInfo { number: env.number, epoch: env.epoch, ts: env.median, cellbase: false, hash: None });
     let d = sp.delta as i128;
     let clamp56 = |v: i128| -> u64 { v.clamp(0, (1i128 << 56) - 1) as u64 };
     // extreme values of the 56-bit field for the number / time metrics (forms 10 and 11, which mean
@@ -1147,6 +1475,11 @@ pub fn build_candidate(
     prev: Option<&TransactionView>,
     prev2: Option<&TransactionView>,
 ) -> Option<Built> {
+    if let Some(d) = &spec.dao {
+        if let Some(b) = build_dao_candidate(g, spec, d, probe) {
+            return Some(b);
+        }
+    }
     let env = g.env;
     let view = View::new(g.tree, &g.tip);
     let tenv = target_env(g, spec.target, probe);
@@ -1232,6 +1565,7 @@ pub fn build_candidate(
                         epoch: g.sched[probe.min(g.sched.len() - 1)].epoch,
                         ts: g.sched[probe.min(g.sched.len() - 1)].ts,
                         cellbase: false,
+                        hash: None,
                     }),
                 });
                 (h32(&p.hash()), 0)
@@ -1517,5 +1851,246 @@ pub fn build_candidate(
     if spec.structural == 3 {
         tb = tb.output_data(Bytes::new().pack());
     }
+    Some(Built { tx: tb.build(), probe, intents })
+}
+
+
+// ---------------------------------------------------------------------------------------------
+// family `dao`: NervosDAO-shaped candidates
+// ---------------------------------------------------------------------------------------------
+
+pub fn is_dao_typed(env: &Env, o: &CellOutput) -> bool {
+    o.type_()
+        .to_opt()
+        .map(|t| {
+            let ht: u8 = t.hash_type().into();
+            ht == 1 && t.code_hash() == env.consensus.dao_type_hash()
+        })
+        .unwrap_or(false)
+}
+
+fn lock_with_args_len(env: &Env, len: usize) -> Script {
+    env.always_success_lock.clone().as_builder().args(Bytes::from(vec![len as u8; len]).pack()).build()
+}
+
+/// Build a NervosDAO-shaped transaction; None when the cells it needs do not exist at the tip.
+fn build_dao_candidate(g: &mut GenCtx, spec: &CandSpec, d: &DaoCand, probe: usize) -> Option<Built> {
+    let env = g.env;
+    let view = View::new(g.tree, &g.tip);
+    let tenv = target_env(g, spec.target, probe);
+    let st = &g.tree.get(&g.tip).state;
+    let mut intents: Vec<&'static str> = vec![];
+    let live = |k: &CellKey| st.live.contains_key(k);
+    let next_plain = |g: &mut GenCtx| -> Option<CellKey> {
+        while g.next_plain < g.prep.plain.len() {
+            let k = g.prep.plain[g.next_plain];
+            g.next_plain += 1;
+            if g.tree.get(&g.tip).state.live.contains_key(&k) {
+                return Some(k);
+            }
+        }
+        None
+    };
+    // DAO cells of the history (spendable lock), by phase
+    let hist: Vec<(CellKey, bool)> = st
+        .live
+        .iter()
+        .filter(|(k, c)| is_dao_typed(env, &c.output) && is_as_family(env, &c.output.lock()) && !g.prep.dao_deposits.contains(k) && !g.prep.dao_withdrawing.contains(k))
+        .map(|(k, c)| (*k, c.data.len() == 8 && c.data.iter().any(|b| *b != 0)))
+        .collect();
+    let dao_key: CellKey = match d.kind {
+        1 => next_plain(g)?,
+        2 => {
+            let h: Vec<CellKey> = hist.iter().filter(|x| !x.1).map(|x| x.0).collect();
+            if d.sel % 3 == 0 && !h.is_empty() {
+                intents.push("dao-cell-from-history");
+                h[pick_idx(d.sel as u32, h.len())]
+            } else {
+                let mut k = None;
+                while g.next_dao.0 < g.prep.dao_deposits.len() {
+                    let c = g.prep.dao_deposits[g.next_dao.0];
+                    g.next_dao.0 += 1;
+                    if live(&c) {
+                        k = Some(c);
+                        break;
+                    }
+                }
+                match k {
+                    Some(k) => k,
+                    None if !h.is_empty() => h[pick_idx(d.sel as u32, h.len())],
+                    None => return None,
+                }
+            }
+        }
+        _ => {
+            let h: Vec<CellKey> = hist.iter().filter(|x| x.1).map(|x| x.0).collect();
+            if d.sel % 3 == 0 && !h.is_empty() {
+                intents.push("dao-cell-from-history");
+                h[pick_idx(d.sel as u32, h.len())]
+            } else {
+                let mut k = None;
+                while g.next_dao.1 < g.prep.dao_withdrawing.len() {
+                    let c = g.prep.dao_withdrawing[g.next_dao.1];
+                    g.next_dao.1 += 1;
+                    if live(&c) {
+                        k = Some(c);
+                        break;
+                    }
+                }
+                match k {
+                    Some(k) => k,
+                    None if !h.is_empty() => h[pick_idx(d.sel as u32, h.len())],
+                    None => return None,
+                }
+            }
+        }
+    };
+    let dao_cell = match view.lookup(&dao_key) {
+        Look::Live(c) => c,
+        _ => return None,
+    };
+    let info = dao_cell.info;
+    let since = make_since(&spec.inputs[0].since, &tenv, info.as_ref());
+    let mut inputs: Vec<(CellKey, VCell, u64)> = vec![(dao_key, dao_cell.clone(), since)];
+    if d.extra_plain_input {
+        if let Some(k) = next_plain(g) {
+            if let Look::Live(c) = view.lookup(&k) {
+                if d.plain_first {
+                    inputs.insert(0, (k, c, 0));
+                } else {
+                    inputs.push((k, c, 0));
+                }
+            }
+        }
+    }
+    let dao_idx = inputs.iter().position(|i| i.0 == dao_key).unwrap();
+    // --- header deps, witnesses, maximum withdraw
+    let mut hdeps: Vec<Byte32> = vec![];
+    let mut witnesses: Vec<Bytes> = vec![];
+    let in_caps: u128 = inputs.iter().map(|i| cap(&i.1.output) as u128).sum();
+    let mut max_sum: u128 = in_caps;
+    let key32 = |h: &[u8; 32]| Byte32::from_slice(h).unwrap();
+    match d.kind {
+        1 => intents.push("dao-deposit"),
+        2 => {
+            intents.push("dao-phase1");
+            if d.sel % 2 == 0 {
+                if let Some(h) = info.as_ref().and_then(|i| i.hash) {
+                    hdeps.push(key32(&h));
+                }
+            }
+        }
+        _ => {
+            intents.push("dao-phase2");
+            let w_hash = info.as_ref().and_then(|i| i.hash)?;
+            let w = g.tree.get(&key32(&w_hash));
+            let recorded = u64::from_le_bytes(dao_cell.data[..8].try_into().ok()?);
+            let main = |n: u64| g.tree.ancestor(&g.tip, n).map(|b| b.hash.clone());
+            let d_block = match d.hdr {
+                7 => Some(key32(&w_hash)),
+                8 => main(1 + d.sel as u64 % w.number.saturating_sub(1).max(1)),
+                9 => main((w.number + 1).min(g.tree.get(&g.tip).number)),
+                _ => main(recorded),
+            }?;
+            let (deps, index): (Vec<Byte32>, u64) = match d.hdr {
+                1 => (vec![key32(&w_hash), d_block.clone()], 1),
+                2 => (vec![d_block.clone()], 0),
+                3 => (vec![d_block.clone(), key32(&w_hash)], 2 + d.sel as u64 % 3),
+                _ => (vec![d_block.clone(), key32(&w_hash)], 0),
+            };
+            hdeps = deps;
+            let idx_bytes = |n: usize| Bytes::from(index.to_le_bytes()[..n].to_vec());
+            let wa = |input_type: Option<Bytes>, lock: Option<Bytes>| {
+                ckb_types::packed::WitnessArgs::new_builder().input_type(input_type.pack()).lock(lock.pack()).build().as_bytes()
+            };
+            let w_bytes: Option<Bytes> = match d.hdr {
+                4 => None,
+                5 => Some(Bytes::from(vec![0x5a; 11])),
+                6 => Some(wa(Some(idx_bytes(4)), None)),
+                10 => Some(wa(None, Some(idx_bytes(8)))),
+                _ => Some(wa(Some(idx_bytes(8)), None)),
+            };
+            if let Some(wb) = w_bytes {
+                for i in 0..inputs.len() {
+                    witnesses.push(if i == dao_idx { wb.clone() } else { Bytes::new() });
+                }
+            }
+            if d.hdr != 0 && d.hdr != 1 {
+                intents.push("dao-phase2-odd-header-shape");
+            }
+            // what the generator expects the maximum to be (the oracle recomputes it)
+            let db = g.tree.get(&d_block);
+            if db.number < w.number {
+                let occ = occupied_shannons(&dao_cell.output, dao_cell.data.len());
+                let c = cap(&dao_cell.output) as u128;
+                let maxw = (c - occ) * w.dao.ar as u128 / db.dao.ar as u128 + occ;
+                max_sum = in_caps - c + maxw;
+            }
+        }
+    }
+    // --- outputs
+    let mut outs: Vec<(CellOutput, Bytes)> = vec![];
+    let total: i128 = match d.amount {
+        1 => max_sum as i128,
+        2 => max_sum as i128 + 1,
+        3 => max_sum as i128 - 1,
+        4 => in_caps as i128,
+        5 => in_caps as i128 + 1,
+        6 => max_sum as i128 - 150,
+        _ => max_sum as i128 - 10_000_000,
+    };
+    let in_lock_len = dao_cell.output.lock().args().raw_data().len();
+    let out_lock_len = if d.out_lock == 0 { in_lock_len } else { (in_lock_len + d.out_lock as usize) % 4 };
+    let dao_type = dao_type_script(env, if d.type_args { 3 } else { 0 });
+    let plain = |capv: i128, lock_len: usize| {
+        CellOutput::new_builder().capacity(Capacity::shannons(capv.clamp(0, u64::MAX as i128) as u64)).lock(lock_with_args_len(env, lock_len)).build()
+    };
+    // optional output at the occupied-capacity boundary
+    let mut rest = total;
+    let mut boundary: Option<(CellOutput, Bytes)> = None;
+    if d.occ != 0 {
+        let data = Bytes::from(vec![7u8; (d.sel % 5) as usize]);
+        let probe_out = plain(0, 1);
+        let occ = occupied_shannons(&probe_out, data.len()) as i128;
+        let c = match d.occ {
+            1 => occ,
+            2 => occ - 1,
+            _ => occ + 1,
+        };
+        boundary = Some((plain(c, 1), data));
+        rest -= c;
+        intents.push("dao-with-output-at-occupied-boundary");
+    }
+    match d.kind {
+        1 | 2 => {
+            let data = if d.kind == 1 { Bytes::from(vec![0u8; 8]) } else { Bytes::from(info.map(|i| i.number).unwrap_or(1).to_le_bytes().to_vec()) };
+            let o = plain(rest, out_lock_len).as_builder().type_(Some(dao_type).pack()).build();
+            outs.push((o, data));
+            if d.kind == 2 {
+                intents.push(if out_lock_len == in_lock_len { "dao-phase1-same-lock-size" } else { "dao-phase1-other-lock-size" });
+            }
+        }
+        _ => outs.push((plain(rest, out_lock_len), Bytes::new())),
+    }
+    if let Some(b) = boundary {
+        outs.push(b);
+    }
+    let mut tb = TransactionBuilder::default().cell_dep(env.always_success_dep.clone());
+    if !d.no_dao_dep {
+        tb = tb.cell_dep(env.dao_dep.clone());
+    }
+    for h in &hdeps {
+        tb = tb.header_dep(h.clone());
+    }
+    for (k, _, since) in &inputs {
+        tb = tb.input(CellInput::new(out_point_of(k), *since));
+    }
+    for (o, data) in &outs {
+        tb = tb.output(o.clone()).output_data(data.pack());
+    }
+    for w in &witnesses {
+        tb = tb.witness(w.pack());
+    }
+    let _ = g.dao_lock_start;
     Some(Built { tx: tb.build(), probe, intents })
 }
